@@ -392,7 +392,8 @@ class Run:
                 unexplained = [{"what": "the scenario corpus crashed inside the generator or the generated library", "where": last, "error": tail}]
                 self.bounded.append({"what": what or f"native scenario corpus {module}.{func}", "cases": 0, "failures": 1, "unexplained": unexplained})
                 self.results.append(Result(group, "open", "native", 0.0, "bounded", detail=json.dumps(unexplained)[:1500], group=group))
-                self._native_unexplained = unexplained
+                self._native_unexplained = (getattr(self, "_native_unexplained", None) or []) + unexplained
+                self._native_by_group = dict(getattr(self, "_native_by_group", {}), **{group: unexplained})
                 self.notes.append(f"native stand-in {module}.{func} crashed in code under test: {text[-1200:]}")
                 return None
             self.notes.append(f"native stand-in {module}.{func} crashed: {e!r}"[:1500])
@@ -405,7 +406,8 @@ class Run:
         self.bounded.append({"what": what or f"native scenario corpus {module}.{func}", "cases": cases, "failures": len(fails), "unexplained": unexplained[:4]})
         self.results.append(Result(group, "open" if unexplained else "discharged", "native", 0.0, "bounded",
                                    detail=json.dumps(unexplained[:3], default=str)[:1500], group=group))
-        self._native_unexplained = unexplained
+        self._native_unexplained = (getattr(self, "_native_unexplained", None) or []) + unexplained       # over all corpora of the run
+        self._native_by_group = dict(getattr(self, "_native_by_group", {}), **{group: unexplained})
         return f
 
     def assume(self, *texts):
@@ -466,7 +468,9 @@ class Run:
                     except Exception:
                         self.notes.append("witness check crashed: " + traceback.format_exc()[-500:])
                 other = (None, False)
-                if falsifier is not None:
+                # (failing inputs of the always-on native corpus that no listed finding explains are reported under the native group itself;
+                # they are not attributed to this clause a second time)
+                if falsifier is not None and not getattr(self, "_native_unexplained", None):
                     try:
                         other = falsifier(g, info)
                     except Exception:
@@ -478,7 +482,9 @@ class Run:
                     continue
             replay = None
             found_input = False
-            if g.startswith("native.") and getattr(self, "_native_unexplained", None):
+            if g.startswith("native.") and getattr(self, "_native_by_group", {}).get(g):
+                replay, found_input = {"kind": "native", "failures": self._native_by_group[g][:6]}, True
+            elif g.startswith("native.") and getattr(self, "_native_unexplained", None):
                 replay, found_input = {"kind": "native", "failures": self._native_unexplained[:6]}, True
             elif falsifier is not None:
                 try:
